@@ -33,6 +33,11 @@ def srcOps : CoreOps where
   iterNext := Gen.Iter_next
   iterNextBack := Gen.Iter_next_back
   iterLen := Gen.Iter_len
+  iterMutNew := Gen.IterMut_new
+  iterMutOverRange := Gen.IterMut_over_range
+  iterMutNext := Gen.IterMut_next
+  iterMutNextBack := Gen.IterMut_next_back
+  iterMutLen := Gen.IterMut_len
   drainNew := Gen.Drain_over_range
   drainNext := Gen.Drain_next
   drainNextBack := Gen.Drain_next_back
